@@ -322,3 +322,55 @@ func ScriptGen(o ScriptOpts) *rapid.Generator[Script] {
 		return s
 	})
 }
+
+// TwinItems now and then (one script in five) replaces one item of the script by a near twin of another item of the same
+// script: the same descriptor, and for the floating-point kinds the same value with the sign turned (the two zeroes
+// included).  Equal and almost-equal values side by side are what caches keyed by value get wrong.  The shape of the
+// script (which rows, how many cells) does not change.
+func TwinItems(t *rapid.T, ops []Op) {
+	if rapid.IntRange(0, 4).Draw(t, "twins?") != 0 {
+		return
+	}
+	type at struct{ op, i int }
+	var cells []at
+	for oi, op := range ops {
+		if op.K == "rowitems" || op.K == "rowadd" {
+			for i := range op.Items {
+				cells = append(cells, at{oi, i})
+			}
+		}
+	}
+	if len(cells) < 2 {
+		return
+	}
+	a := cells[rapid.IntRange(0, len(cells)-1).Draw(t, "twin-of")]
+	b := cells[rapid.IntRange(0, len(cells)-1).Draw(t, "twin-at")]
+	if a == b {
+		return
+	}
+	src := ops[a.op].Items[a.i]
+	if src.K != "f64" && src.K != "f32" && rapid.IntRange(0, 2).Draw(t, "make-float") != 0 {
+		// most items are strings: make the pair a pair of floats more often than chance would
+		src = Item{K: rapid.SampledFrom([]string{"f64", "f32"}).Draw(t, "twin-kind"), FS: rapid.SampledFrom([]string{"0", "-0", "0.1", "1e21"}).Draw(t, "twin-fs")}
+		ops[a.op].Items[a.i] = src
+	}
+	tw := src
+	switch src.K {
+	case "f64", "f32":
+		switch {
+		case src.FS == "0":
+			tw.FS = "-0"
+		case src.FS == "-0":
+			tw.FS = "0"
+		case src.FS == "" && src.N == 0:
+			tw.FS = "-0"
+		case src.FS == "":
+			tw.N = -src.N
+		case len(src.FS) > 0 && src.FS[0] == '-':
+			tw.FS = src.FS[1:]
+		case src.FS != "nan":
+			tw.FS = "-" + src.FS
+		}
+	}
+	ops[b.op].Items[b.i] = tw
+}
